@@ -276,6 +276,10 @@ def run_search_check(pid, tier, obligations, prefixes, functions, bounds, outsid
                 recs = r['records']
                 for rec in recs:
                     items.append((r, rec))
+            cap = 160000 if tier == 'quick' else 400000       # evenly thinned when a change makes the number of paths explode
+            if len(items) > cap:
+                step = -(-len(items) // cap)
+                items = items[::step]
             CH = 400
             chunks = [items[i:i + CH] for i in range(0, len(items), CH)]
 
